@@ -261,13 +261,33 @@ func algoOf(ver string) gmsl.StateResAlgorithm {
 
 // v1AuthEvents: the v1 resolver documents its auth events as the unconflicted events needed for auth, one per key.
 func (m *roomM) v1AuthEvents() []int {
-	var out []int
-	for _, i := range m.q.Unconflicted {
-		switch m.types[i] {
-		case "create", "pl", "jr", "member":
-			out = append(out, i)
+	byID := map[int]roomEvent{}
+	for _, e := range m.q.Events {
+		byID[e.ID] = e
+	}
+	perKey := map[string]map[int]bool{}
+	for _, s := range m.q.Sets {
+		for _, i := range s {
+			k := byID[i].Type + "\x00" + byID[i].SKey
+			if perKey[k] == nil {
+				perKey[k] = map[int]bool{}
+			}
+			perKey[k][i] = true
 		}
 	}
+	var out []int
+	for _, ids := range perKey {
+		if len(ids) != 1 {
+			continue
+		}
+		for i := range ids {
+			switch m.types[i] {
+			case "create", "pl", "jr", "member":
+				out = append(out, i)
+			}
+		}
+	}
+	sort.Ints(out)
 	return out
 }
 
